@@ -4,6 +4,7 @@ CONSTANTS
   Lens <- LensT
   Depth = 1
   MaxN = 4
+  BigTN <- BigQ
   Modes <- ModesAll
   Deviations <- NoDev
   Emit = TRUE
